@@ -26,6 +26,19 @@ Bounded exhaustive exploration on the real code:
        read_file(earlier dump | pre-existing full file | hand-written partial file) against a reference dictionary:
        after every step get_value agrees with the reference, every dumped file parses (tomllib) to the current
        values and a fresh object reads them back;
+ (L)   long histories for ONE output name in ONE directory: outputs number 1, 2, ..., N (N = 135 quick, 1100 thorough:
+       beyond the two-digit and the three-digit range of the ~NN numbering) through every entry point that asks for a
+       fresh name (get_new_file_name itself x extensions x model names, write_pickle / write_html / write_latex /
+       write_f12 / dump_on_file, all five in rounds, create_backup copy / rename; estimate(html+pickle), estimate(pickle),
+       validate at the boundary lengths with the naming function in between) x directory patterns (files only; files /
+       directories / dangling links; the user deletes earlier outputs; a second model whose name is this one's first
+       numbered name): at EVERY length the name handed out did not exist, every earlier entry is untouched, the new
+       entries are the reported ones; at the boundary lengths contents are re-hashed, the pickle reads back and
+       estimate(recycle=True) returns the results written last;
+ parts (i) and (iii) also run for the other kinds of results objects: quick_estimate() (no derivatives, hence no
+       statistics), quick_estimate() after a bootstrap run on the same object (bootstrap matrix, no derivatives) and
+       estimate() after calculate_null_loglikelihood() (null-model statistics); the printed form is also checked on the
+       re-read object and on the object after it has written its files (file-name fields set);
  part (i) is run for every identification threshold of a small per-seed alphabet (the threshold is the one
        configuration value that shapes the reports of a results object): direct load and estimate(recycle=True)
        by an identically configured BIOGEME object must give the same reports.
@@ -48,7 +61,9 @@ TECHNIQUE = ('explicit-state BFS over output-generation histories in pre-populat
              'executed on the real code and compared with a reference model of the directory; bounded exhaustive '
              'enumeration of round trips (pickle, TOML parameter file, report listings) against independent readers; '
              'exhaustive bounded-length operation histories on one results object (writers x model-name alphabet x '
-             'pre-populated directories) and on one Parameters object (set / dump / read) against a reference dictionary')
+             'pre-populated directories) and on one Parameters object (set / dump / read) against a reference dictionary; '
+             'long single-name histories (every length 1..N, N beyond the 2- and 3-digit numbering) through every entry '
+             'point that asks for a fresh name, against a reference model of the directory')
 RULE = ('(i) one case per (model kind, name pool, bootstrap) results object and compared artefact; (ii) one case per '
         'set of <=2 deviations (parameter, value) from the default parameter set, non-trivial when the file differs '
         'from the default file; hand-written files: one case per (boolean parameter, spelling); (iii) one case per '
@@ -59,7 +74,9 @@ RULE = ('(i) one case per (model kind, name pool, bootstrap) results object and 
         '(i) is repeated per identification threshold of the seed\'s alphabet; (w) one case per (model name, root '
         'directory, writer history) step, non-trivial when the directory is pre-populated or the same writer ran before; '
         '(p) one case per history of set_value / dump_file / read_file on one Parameters object, non-trivial from the '
-        'second step on. '
+        'second step on; (L) one case per (entry point, name, extension, directory pattern, number of earlier outputs), '
+        'non-trivial when at least one earlier output of the name exists; (i)/(iii) results objects also vary in how they '
+        'came about (estimate / quick_estimate / quick_estimate after bootstrap / estimate with null log likelihood). '
         'distinct = distinct (part, witness) keys.')
 ASSUMPTIONS = [
     'datetime.now() as seen from biogeme.biogeme / biogeme.results / biogeme.parameters is owned (frozen instant), so '
@@ -70,7 +87,16 @@ ASSUMPTIONS = [
     'no-overwrite invariant; biogeme.toml is never rewritten by read_file and is inside it',
     'parameter values are plain Python bool / int / float / str of the declared type accepted by the library\'s own '
     'check functions (numpy integers and bools for numeric parameters are outside the alphabet)',
-    'fewer than 100 files per base name (the ~NN numbering is two digits wide)',
+    'parts (n), (iv), (w): fewer than 100 files per base name; part (L): up to 135 (quick) / 1100 (thorough) outputs of one '
+    'name, where only the statement is demanded (the name is new, nothing earlier is touched), not a particular '
+    'rendering of numbers beyond 99',
+    'a report that the library does not produce for a results object without derivatives (get_html, get_latex, get_f12, '
+    'print_general_statistics, the variance tables raise for quick_estimate() results) is not a generated report: '
+    'counted as unavailable, it must be equally unavailable after a pickle round trip; every report that is produced '
+    '(printed form, short summary, parameter table) is held to the full oracle',
+    'part (L): earlier outputs are made older than later ones (os.utime at creation, in creation order), so that "the '
+    'results written last" is well defined for estimate(recycle=True); recycling is not asked in the directory pattern '
+    'with directories / dangling links under pickle names',
     'reference TOML parser: stdlib tomllib; reference naming rule: the docstring of get_new_file_name',
     'part (w) demands only what the statement says (earlier entries untouched, reported name new, it is the one new '
     'entry, it reads back), not a particular name; model names are non-empty strings without path separators',
@@ -2162,11 +2188,12 @@ def l_tasks(tier):
     t = []
     for ext in ('html', 'pickle', 'tex', 'F12', 'dat'):
         for pattern in L_PATTERNS:
-            for name in (names if pattern == 'files' else names[:2]):
+            for name in (names if pattern == 'files' and ext in ('html', 'pickle') else
+                         names[:4] if pattern == 'files' else names[:2]):
                 t.append(dict(part='L', entry='name', name=name, ext=ext, pattern=pattern, n=n))
     for entry in L_CHEAP[1:]:
         for pattern in ('files', 'holes'):
-            for name in (names[:2] if tier == 'quick' or pattern == 'holes' else names[:4]):
+            for name in (names[:2] if tier == 'quick' or pattern == 'holes' or entry == 'all' else names[:4]):
                 t.append(dict(part='L', entry=entry, name=name, ext='html', pattern=pattern, n=n))
     for entry in L_COSTLY:
         for pattern in (('files',) if tier == 'quick' else ('files', 'kinds')):
